@@ -1,6 +1,6 @@
 (* C11/Property.v — property theorems only.
    "The metadata store answers exactly what authentic, current metadata says."
-   [cur] = the code as it is now (after d8b1d2a4, 18964551, fafdf54c, 254349bd, a8da97db, ab8ae013); [v0] = before them. *)
+   [cur] = the code as it is now (after d8b1d2a4, 18964551, fafdf54c, 254349bd, a8da97db, ab8ae013, 7137d601); [v0] = before them. *)
 From Coq Require Import String List Bool ZArith.
 From Verif Require Import Base.Str Base.Py Base.Py2 C11.Model C11.Dec C11.Spec C11.Proofs C11.Lookup C11.Sim C11.Facts C11.Source2.
 From VerifGen Require Import C11Src2.
@@ -140,25 +140,31 @@ Theorem c11_load_accepted : forall ns sp now f m, load_static cur ns sp now f = 
 Proof. exact load_static_accept. Qed.
 Print Assumptions c11_load_accepted.
 
-(* ---- the process time zone (round 5, finding C11-F8, open).  [cur] = the code in a process whose zone has no
-   daylight-saving gap (f_gaps = []: UTC, fixed offsets): every theorem about [cur] above and below holds under that
-   guard.  With a gap the property FAILS: an MDQ entry whose expiration date (UTC reading) falls into the hour the
-   local calendar skips is served for an hour after its freshness period ran out. *)
-Theorem c11_zone_guard : in_zone [] = cur.
-Proof. exact in_zone_nil. Qed.
-Print Assumptions c11_zone_guard.
+(* ---- the process time zone (finding C11-F8, repaired by 7137d601).  [cur], the code now, computes the expiration date
+   of an MDQ entry in UTC: no gap table is an input of the model any more, so every theorem about [cur] above and below
+   (c11_store_conforms first of all) holds in every zone, with every table of daylight-saving gaps.  [zone_v0 gaps] =
+   the code before the commit in a zone with those gaps: there the property FAILED (an entry whose expiration date,
+   as a UTC reading, fell into the hour the local calendar skips was served for an hour after it ran out). *)
+Theorem c11_expiry_zone_free : forall now period, expiry cur now period = (now + period)%Z.
+Proof. exact expiry_cur. Qed.
+Print Assumptions c11_expiry_zone_free.
 
-Theorem c11_zone_gap_refuted : exists g now h, ~ spec (rinit now) h (run (in_zone g) (init now) h).
-Proof. exact c11_zone_gap_refuted_ex. Qed.
-Print Assumptions c11_zone_gap_refuted.
+Theorem c11_zone_gap_v0_refuted : exists g now h, ~ spec (rinit now) h (run (zone_v0 g) (init now) h).
+Proof. exact zone_gap_v0_refuted_ex. Qed.
+Print Assumptions c11_zone_gap_v0_refuted.
+
+Theorem c11_zone_witness_conforms_now : spec (rinit Tz) zone_witness (run cur (init Tz) zone_witness).
+Proof. exact zone_witness_conforms_now. Qed.
+Print Assumptions c11_zone_witness_conforms_now.
 
 Theorem c11_zone_fix_outside : forall gaps t,
   (forall a len sh, In (a, len, sh) gaps -> (t < a \/ a + len <= t)%Z) -> zone_fix gaps t = t.
 Proof. exact zone_fix_outside. Qed.
 Print Assumptions c11_zone_fix_outside.
 
+(* the repair changed exactly the fetches made while now + period lies inside a gap *)
 Theorem c11_mdx_fetch_zone_outside : forall g x now srv e,
-  zone_fix g (now + x_period x) = (now + x_period x)%Z -> mdx_fetch (in_zone g) x now srv e = mdx_fetch cur x now srv e.
+  zone_fix g (now + x_period x) = (now + x_period x)%Z -> mdx_fetch (zone_v0 g) x now srv e = mdx_fetch cur x now srv e.
 Proof. exact mdx_fetch_zone_outside. Qed.
 Print Assumptions c11_mdx_fetch_zone_outside.
 
